@@ -26,3 +26,19 @@ Definition monitor_t := bytes -> V -> V -> option bool.
 
 Fixpoint first_some {A} (l : list (option A)) : option A :=
   match l with [] => None | Some a :: _ => Some a | None :: r => first_some r end.
+
+(** wildcard: a model observation may leave a component unspecified *)
+Definition VWild : V := VS (s2b "<any>").
+Fixpoint V_match (model impl : V) {struct model} : bool :=
+  match model, impl with
+  | VS m, _ => if bytes_eqb m (s2b "<any>") then true else match impl with VS x => bytes_eqb m x | _ => false end
+  | VZ x, VZ y => x =? y
+  | VL x, VL y =>
+      (fix go (x y : list V) : bool :=
+         match x, y with
+         | [], [] => true
+         | u :: x', v :: y' => V_match u v && go x' y'
+         | _, _ => false
+         end) x y
+  | _, _ => false
+  end.
